@@ -33,6 +33,17 @@ pub fn all_bodies() -> Vec<BodyIn> {
             out.push(BodyIn::Enum(vs));
         }
     }
+    // the other spelling of positional bodies (the renderer writes a trailing comma when the byte sum of the field types is
+    // even): `S(u16,)`, `S(u16, u8)`, `S(u16, u8, u8,)` and the same as variants
+    for n in 1..4 {
+        let mut fs = fields(n, false);
+        fs[0].ty = "u16".into();
+        out.push(BodyIn::Struct(StyleIn::Tuple, fs.clone()));
+        out.push(BodyIn::Enum(vec![
+            VariantIn { attrs: AttrSet::default(), name: "V0".into(), style: StyleIn::Tuple, fields: fs, disc: None },
+            VariantIn { attrs: AttrSet::default(), name: "V1".into(), style: StyleIn::Unit, fields: vec![], disc: None },
+        ]));
+    }
     out.push(BodyIn::Enum(vec![VariantIn { attrs: AttrSet::default(), name: "V0".into(), style: StyleIn::Tuple, fields: fields(0, false), disc: None }]));
     out.push(BodyIn::Enum(vec![VariantIn { attrs: AttrSet::default(), name: "V0".into(), style: StyleIn::Named, fields: fields(0, true), disc: Some("7".into()) }]));
     out.push(BodyIn::Union(fields(2, true)));
